@@ -62,6 +62,13 @@ def run_task(task):
                 out["vacuous_paths"] += 1
                 continue
             for ob in ctx.obligations:
+                ix = (ob.meta or {}).get("index")
+                if ix is not None:
+                    # row lemmas proved on this path, instantiated at the generic index of the safety obligation
+                    for (d, stmt) in ctx.ghost.get("row_lemmas", []):
+                        shp = ob.meta.get("shape") or []
+                        if shp and shp[0].same(d):
+                            ob.hyps = list(ob.hyps) + [stmt(tuple(ix[0]))]
                 name = ob.name if "/" in ob.name else f"{prefix}/{ob.name}"
                 r = solve.discharge(ctx, ob, timeout, use_cvc5=(tier == "thorough"))
                 rec = {
@@ -78,7 +85,7 @@ def run_task(task):
                 if r["status"] != "proved":
                     rec["model"] = r.get("model")
                     rec["reason"] = r.get("reason")
-                    rec["meta"] = {k: v for k, v in (ob.meta or {}).items() if k != "replay"}
+                    rec["meta"] = {k: v for k, v in (ob.meta or {}).items() if k not in ("replay", "index", "shape")}
                     rec["trace"] = [f"{l}:{'T' if d else 'F'}" for l, d in ctx.trace][-30:]
                     m = r.get("_model")
                     rp = (ob.meta or {}).get("replay") or ctx.ghost.get("replay")
